@@ -154,6 +154,161 @@ for func, lean, model, extra in (
         alias=f"def {lean} (isFragment : Bool) (t : Nat) " + ("(mss : Nat) " if extra else "") + f": Bool := {model}\n",
     ))
 
+# ---------------------------------------------------------------------------------------------- C02
+RECORDS = {
+    "Rec": {"signature": (".sig", "Rec:Sig"), "is_generic": (".generic", "Bool"), "label.is_user_app": (".userApp", "Bool"),
+            "signature.ttl": (".sig.ttl", "Nat")},
+    "TcpMatch": {"type": (".1", "Enum:MatchType"), "record": (".2", "Rec:Rec")},
+}
+
+
+def _iter_tcp(fn, args, kw, env):
+    return ("recs", "List:Rec:Rec")
+
+
+def _sig_match(fn, args, kw, env):
+    if kw or len(args) != 3:
+        raise NotTranslatable("call shape of tcp_signatures_match")
+    s_, ts = fn.expr(args[0], env)
+    p_, tp = fn.expr(args[1], env)
+    o_, to = fn.expr(args[2], env)
+    if (ts, tp, to) != ("Rec:Sig", "Rec:PSig", "Rec:Options"):
+        raise NotTranslatable("argument types of tcp_signatures_match")
+    return (f"(P0f.Gen.tcpSignaturesMatch {par(s_)} {par(p_)} maxDist)", "Opt:Enum:MatchType")
+
+
+def _tcp_match_ctor(fn, args, kw, env):
+    e, t = tuple_ctor("type", "record")(fn, args, kw, env)
+    if t != "Tuple:Enum:MatchType,Rec:Rec":
+        raise NotTranslatable(f"TCPMatch built from {t}")
+    return (e, "Rec:TcpMatch")
+
+
+TARGETS.append(dict(
+    module="pyp0f.fingerprint.tcp", func="find_tcp_match", file="FindTcpMatch", lean="findTcpMatch",
+    import_="P0f.Generated.Logic.TcpSignaturesMatch\nimport P0f.Model.Find",
+    pyparams=["packet_signature", "direction", "options"],
+    params=[("recs", "List Rec"), ("p", "PSig"), ("maxDist", "Int")], ret="Opt:Rec:TcpMatch", lean_ret="Option TcpMatch",
+    env={"packet_signature": ("p", "Rec:PSig"), "options": ("options", "Rec:Options"), "direction": ("direction", "Enum:Dir")},
+    records=RECORDS,
+    opt_types={"fuzzy_match": "Opt:Rec:TcpMatch", "generic_match": "Opt:Rec:TcpMatch"},
+    calls={"options.database.iter_values": _iter_tcp, "tcp_signatures_match": _sig_match, "TCPMatch": _tcp_match_ctor},
+    alias="def findTcpMatch (recs : List Rec) (p : PSig) (maxDist : Int) : Option TcpMatch := P0f.findTcpMatch recs p maxDist\n",
+))
+
+TARGETS.append(dict(
+    module="pyp0f.fingerprint.results.tcp", func="TCPResult.__post_init__", file="TcpDistance", lean="distance",
+    import_="P0f.Generated.Logic.GuessDistance\nimport P0f.Model.Find",
+    pyparams=["self"], params=[("m", "Option TcpMatch"), ("pttl", "Nat")], ret="Int", lean_ret="Int",
+    env={"self.match": ("m", "Opt:Rec:TcpMatch"), "self.packet_signature.ttl": ("pttl", "Nat")},
+    records=RECORDS, assignable=("self.distance",),
+    calls={"guess_distance": call_gen("P0f.Gen.guessDistance", ["Nat"], "Int")},
+    end=lambda fn, env: as_int(*env["self.distance"]),
+    alias="def distance (m : Option TcpMatch) (pttl : Nat) : Int := P0f.distance m pttl\n",
+))
+
+# ---------------------------------------------------------------------------------------------- C03
+def _quirk0(fn, args, kw, env):
+    if kw or len(args) != 1 or not (isinstance(args[0], ast.Constant) and args[0].value == 0):
+        raise NotTranslatable("Quirk(...) with a value other than 0")
+    return ("QSet.empty", "QSet")
+
+
+def _cls_fields(*wanted):
+    """`return cls(field=..., ...)`: the tuple of the listed keyword arguments (the others - addresses, ports - are not logic)"""
+    def mk(fn, args, kw, env):
+        if args:
+            raise NotTranslatable("positional constructor arguments")
+        for w, _ in wanted:
+            if w not in kw:
+                raise NotTranslatable(f"constructor without {w}")
+        parts = [fn.coerce(kw[w], env, ty) for w, ty in wanted]
+        return ("(" + ", ".join(parts) + ")", "Tuple:" + ",".join(ty for _, ty in wanted))
+    return mk
+
+
+IP_FIELDS = (("version", "Nat"), ("ttl", "Nat"), ("tos", "Nat"), ("options_length", "Int"), ("header_length", "Int"),
+             ("is_fragment", "Bool"), ("quirks", "QSet"))
+IP_RET = "Tuple:" + ",".join(t for _, t in IP_FIELDS)
+IP_LEAN_RET = "Nat × Nat × Nat × Int × Int × Bool × QSet"
+TARGETS.append(dict(
+    module="pyp0f.net.layers.ip", func="IP._from_ipv4", file="FromIpv4", lean="fromIpv4", import_="P0f.Model.Wire",
+    decorators=("classmethod",), pyparams=["cls", "ip"], params=[("ip", "Ip4F")], ret=IP_RET, lean_ret=IP_LEAN_RET,
+    env={"ip.tos": ("ip.tos", "Nat"), "ip.flags.evil": ("ip.evil", "Bool"), "ip.flags.DF": ("ip.df", "Bool"),
+         "ip.flags.MF": ("ip.mf", "Bool"), "ip.id": ("ip.ident", "Nat"), "ip.ihl": ("ip.ihl", "Nat"), "ip.frag": ("ip.frag", "Nat"),
+         "ip.version": ("ip.version", "Nat"), "ip.ttl": ("ip.ttl", "Nat"), "ip.src": ("()", "Unit"), "ip.dst": ("()", "Unit")},
+    calls={"Quirk": _quirk0, "cls": _cls_fields(*IP_FIELDS)},
+    alias="def fromIpv4 (ip : Ip4F) : " + IP_LEAN_RET + " := P0f.ipv4Fields ip\n",
+))
+TARGETS.append(dict(
+    module="pyp0f.net.layers.ip", func="IP._from_ipv6", file="FromIpv6", lean="fromIpv6", import_="P0f.Model.Wire",
+    decorators=("classmethod",), pyparams=["cls", "ip"], params=[("ip", "Ip6F")], ret=IP_RET, lean_ret=IP_LEAN_RET,
+    env={"ip.fl": ("ip.fl", "Nat"), "ip.tc": ("ip.tc", "Nat"), "ip.version": ("ip.version", "Nat"), "ip.hlim": ("ip.hlim", "Nat"),
+         "ip.src": ("()", "Unit"), "ip.dst": ("()", "Unit")},
+    calls={"Quirk": _quirk0, "cls": _cls_fields(*IP_FIELDS)},
+    alias="def fromIpv6 (ip : Ip6F) : " + IP_LEAN_RET + " := P0f.ipv6Fields ip\n",
+))
+
+
+def _tcp_pre(stmts):
+    """`TCP.from_packet`: keep the flag / type / is_syn logic and the quirk derivation; the byte slicing, the option
+    parser call's buffer and the payload handling are not decision logic (C03 ties them by correspondence)"""
+    keep = []
+    for st in stmts:
+        src = ast.unparse(st)
+        if isinstance(st, ast.If) and "ScapyTCP not in packet" in src:
+            continue
+        if isinstance(st, (ast.Assign, ast.AnnAssign)):
+            name = ast.unparse(st.targets[0] if isinstance(st, ast.Assign) else st.target)
+            if name in ("tcp", "options_buffer", "payload", "padding"):
+                continue
+        if isinstance(st, ast.If) and ast.unparse(st.test).startswith("padding is not None"):
+            continue
+        keep.append(st)
+    return keep
+
+
+def _tcpflag_ctor(fn, args, kw, env):
+    # TCPFlag(int(tcp.flags))
+    if kw or len(args) != 1:
+        raise NotTranslatable("TCPFlag(...) shape")
+    e, t = fn.expr(args[0], env)
+    if not (t in ("Int", "Nat", "Flags")):
+        raise NotTranslatable("TCPFlag of a non-int")
+    return ("tcp.flags", "Flags") if "tcp.flags" in e else (e, "Flags")
+
+
+def _opts_parse(fn, args, kw, env):
+    if "is_syn" not in kw or len(args) != 1:
+        raise NotTranslatable("TCPOptions.parse call shape")
+    return (fn.coerce(kw["is_syn"], env, "Bool"), "Bool")
+
+
+TCP_FIELDS = (("type", "Nat"), ("options", "Bool"), ("header_length", "Int"), ("quirks", "QSet"))
+TARGETS.append(dict(
+    module="pyp0f.net.layers.tcp.tcp", func="TCP.from_packet", file="TcpFromPacket", lean="tcpFromPacket", import_="P0f.Model.Wire",
+    decorators=("classmethod",), pyparams=["cls", "packet"], params=[("tcp", "TcpF")],
+    ret="Tuple:Nat,Bool,Int,QSet", lean_ret="Nat × Bool × Int × QSet", pre=_tcp_pre,
+    env={"tcp.flags": ("tcp.flags", "Nat"), "tcp.flags.E": ("(bit tcp.flags 64)", "Bool"), "tcp.flags.C": ("(bit tcp.flags 128)", "Bool"),
+         "tcp.flags.N": ("(bit tcp.flags 256)", "Bool"), "tcp.flags.A": ("(bit tcp.flags 16)", "Bool"),
+         "tcp.flags.R": ("(bit tcp.flags 4)", "Bool"), "tcp.flags.U": ("(bit tcp.flags 32)", "Bool"),
+         "tcp.flags.P": ("(bit tcp.flags 8)", "Bool"), "tcp.flags.S": ("(bit tcp.flags 2)", "Bool"),
+         "tcp.flags.F": ("(bit tcp.flags 1)", "Bool"),
+         "tcp.seq": ("tcp.seq", "Nat"), "tcp.ack": ("tcp.ack", "Nat"), "tcp.urgptr": ("tcp.urgptr", "Nat"),
+         "tcp.dataofs": ("tcp.dataofs", "Nat"), "tcp.sport": ("()", "Unit"), "tcp.dport": ("()", "Unit"), "tcp.window": ("()", "Unit"),
+         "payload": ("()", "Unit"), "options_buffer": ("()", "Unit")},
+    calls={"Quirk": _quirk0, "cls": _cls_fields(*TCP_FIELDS), "TCPFlag": _tcpflag_ctor, "TCPOptions.parse": _opts_parse},
+    alias="def tcpFromPacket (tcp : TcpF) : Nat × Bool × Int × QSet := P0f.tcpFields tcp\n",
+))
+TARGETS.append(dict(
+    module="pyp0f.net.layers.tcp.tcp", func="TCP.__post_init__", file="TcpPostInit", lean="tcpPostInit", import_="P0f.Model.Wire",
+    pyparams=["self"], params=[("type", "Nat"), ("quirks", "QSet"), ("optQuirks", "QSet")], ret="Tuple:Nat,QSet", lean_ret="Nat × QSet",
+    env={"self.type": ("type", "Flags"), "self.quirks": ("quirks", "QSet"), "self.options.quirks": ("optQuirks", "QSet")},
+    assignable=("self.type", "self.quirks"),
+    end=lambda fn, env: f"({env['self.type'][0]}, {env['self.quirks'][0]})",
+    alias="def tcpPostInit (type : Nat) (quirks optQuirks : QSet) : Nat × QSet := (P0f.tcpType type, quirks.union optQuirks)\n",
+))
+
 for t in TARGETS:
     if "import_" in t:
         t["import"] = t.pop("import_")
